@@ -103,7 +103,7 @@ template <class S> static void explore(const std::string& sol, const std::vector
   if (n > 0) {
     LD cb0[4]; for (int k = 0; k < 4; k++) cb0[k] = R.c0[k];
     int pfd[2]; if (pipe(pfd)) _exit(4); fflush(out); pid_t c = fork();
-    if (c == 0) { close(pfd[0]); int dn = open("/dev/null", O_WRONLY); dup2(dn, 1); close(dn); masa_init<S>("fresh_b", sol); for (int i = 0; i < n; i++) masa_set_param<S>(R.names[i], (S)(R.base[i] * 1.0625L)); std::string v = R.eval_all(cb0); ssize_t wr = write(pfd[1], v.data(), v.size()); (void)wr; _exit(0); }
+    if (c == 0) { close(pfd[0]); int dn = open("/dev/null", O_WRONLY); dup2(dn, 1); close(dn); masa_init<S>("fresh_b", sol); for (int i = 0; i < n; i++) masa_set_param<S>(R.names[i], (S)(R.base[i] * 1.0625L)); std::string v = R.eval_all(cb0); LD cax[4] = {0, cb0[1], cb0[2], cb0[3]}; v += R.eval_all(cax); ssize_t wr = write(pfd[1], v.data(), v.size()); (void)wr; _exit(0); }
     close(pfd[1]); char b[8192]; ssize_t r; while ((r = read(pfd[0], b, sizeof b)) > 0) ref.append(b, r); close(pfd[0]); int st; waitpid(c, &st, 0); if (!WIFEXITED(st) || WEXITSTATUS(st) != 0) ref.clear();
   }
   // (d) process-global C state the library does not own: errno left behind by anybody's libm call and the floating-point exception flags.
@@ -119,14 +119,15 @@ template <class S> static void explore(const std::string& sol, const std::vector
   // (e) two instances of this solution on two handles: B differs from A in one parameter.  Every evaluator must follow the selection:
   // on B it returns the bits a fresh process computes for B's assignment, back on A the bits of A.
   if (n > 0) {
-    LD cb0[4]; R.apply(base, 0, 0, cb0); std::string va = R.eval_all(cb0);
+    LD cb0[4]; R.apply(base, 0, 0, cb0); LD cax[4] = {0, cb0[1], cb0[2], cb0[3]};  // second point: on the plane x = 0 (the axis r = 0 of the axisymmetric solutions)
+    std::string va = R.eval_all(cb0) + R.eval_all(cax);
     int pi = n / 2;  // B: every parameter 6 percent off A (each evaluator depends on at least one of them)
     if (ref.size() == va.size()) {
       std::vector<LD> keep = R.cur; capture([&] { masa_init<S>("o2b", sol); }); R.cur.assign(n, NAN); for (int i = 0; i < n; i++) R.set(i, R.base[i] * 1.0625L);
-      std::string vb = R.eval_all(cb0); capture([&] { masa_select_mms<S>("o2"); }); R.cur = keep; std::string va2 = R.eval_all(cb0); hist += 2;
-      for (size_t k = 0; k < R.ev.size(); k++) {
-        if (vb.compare(k * w0, w0, ref, k * w0, w0) != 0 && viol < 40) { viol++; fprintf(out, "V\t%s\t%s\t%s/%s\ton a second handle of the same solution (all parameters 6 percent off, e.g. %s) the value differs from what a fresh process computes for that assignment: the evaluator does not follow the selection\n", sol.c_str(), scal, R.ev[k]->name, R.ev[k]->sig, R.names[pi].c_str()); }
-        if (va2.compare(k * w0, w0, va, k * w0, w0) != 0 && viol < 40) { viol++; fprintf(out, "V\t%s\t%s\t%s/%s\tvalue on the first handle changed after a second handle of the same solution was initialised, modified and evaluated\n", sol.c_str(), scal, R.ev[k]->name, R.ev[k]->sig); }
+      std::string vb = R.eval_all(cb0) + R.eval_all(cax); capture([&] { masa_select_mms<S>("o2"); }); R.cur = keep; std::string va2 = R.eval_all(cb0) + R.eval_all(cax); hist += 4;
+      for (size_t k = 0; k < 2 * R.ev.size(); k++) {
+        if (vb.compare(k * w0, w0, ref, k * w0, w0) != 0 && viol < 40) { viol++; fprintf(out, "V\t%s\t%s\t%s/%s\ton a second handle of the same solution (all parameters 6 percent off, e.g. %s) the value differs from what a fresh process computes for that assignment: the evaluator does not follow the selection%s\n", sol.c_str(), scal, R.ev[k % R.ev.size()]->name, R.ev[k % R.ev.size()]->sig, R.names[pi].c_str(), k >= R.ev.size() ? " (at the point with first coordinate 0)" : ""); }
+        if (va2.compare(k * w0, w0, va, k * w0, w0) != 0 && viol < 40) { viol++; fprintf(out, "V\t%s\t%s\t%s/%s\tvalue on the first handle changed after a second handle of the same solution was initialised, modified and evaluated\n", sol.c_str(), scal, R.ev[k % R.ev.size()]->name, R.ev[k % R.ev.size()]->sig); }
       }
     }
   }
